@@ -82,7 +82,7 @@ Definition cfg_unguarded32 : cfg := mkcfg (2 ^ 32 - 1) (2 ^ 31 - 1) false None.
 
 (* THE ONE-LINE SWITCH: which configuration models crates/echo-wasm-abi/src/canonical.rs as it is
    in /repo now.  Change to [cfg_guarded] when the guard patch is committed. *)
-Definition cfg_repo : cfg := cfg_guarded.
+Definition cfg_repo : cfg := cfg_unguarded.
 
 Definition is_guarded (c : cfg) : bool :=
   guard c && match depth_limit c with Some _ => true | None => false end.
